@@ -414,7 +414,11 @@ def build(prog: dict) -> dict:
     name, ns = prog.get("name", NAME), prog.get("apiNs", NS if namespaced else None)
     api_version = prog.get("apiVersion", API_VERSION)
     sfx = prog.get("suffix", "")          # several functions prepared side by side (concurrent mode)
-    api = {"apiVersion": api_version, "kind": kind, "plural": plural, "namespaced": namespaced}
+    # what the spec DECLARES may differ from the scope / plural of the kind as first registered in the process
+    # (`declNamespaced`, `declPlural`): kr8s hands every later function of the kind the class registered first
+    api = {"apiVersion": api_version, "kind": kind, "plural": prog.get("declPlural", plural),
+           "namespaced": prog.get("declNamespaced", namespaced)}
+    plural = prog.get("regPlural", plural)     # the plural the kind was first registered with
     if prog.get("nameVia"):
         inputs["objName"] = name
         api["name"] = "=inputs.objName"
@@ -681,3 +685,47 @@ def run_concurrent(progs: list, latencies: list) -> dict:
     out, _, _ = vloop.run_virtual(_reconcile_many(builds, latency))
     out["builds"] = builds
     return out
+
+
+# ------------------------------------------------------------------ several functions prepared, some reconciled (C06)
+
+async def _prepare_all_reconcile_some(builds, which):
+    from koreo.resource_function.reconcile import reconcile_resource_function
+
+    ku.reset()
+    fns = []
+    for i, b in enumerate(builds):
+        for name, tspec in b["templates"].items():
+            await ku.offer_resource_template(name, copy.deepcopy(tspec))
+        for name, vspec in b["vfs"].items():
+            await ku.offer_value_function(name, copy.deepcopy(vspec))
+        fns.append(await ku.offer_resource_function(f"rf{i}", copy.deepcopy(b["spec"])))
+    out = []
+    for i in which:
+        fn, b = fns[i], builds[i]
+        c = cl.Cluster(objects=copy.deepcopy(b["objects"]))
+        c.log_lookups = True
+        if not hasattr(fn, "crud_config"):
+            out.append({"prepared": False, "prepare": ku.outcome_obs(fn), "cluster": c, "raised": None, "outcome": None,
+                        "resource_id": None})
+            continue
+        raised, res = None, None
+        try:
+            res = await reconcile_resource_function(api=c, location="verif", function=fn,
+                                                    owner=(b["owner"][0], copy.deepcopy(b["owner"][1])),
+                                                    inputs=celpy.json_to_cel(b["inputs"]))
+        except Exception as e:
+            raised = f"{type(e).__name__}: {e}"
+        out.append({"prepared": True, "cluster": c, "raised": raised, "outcome": None if res is None else res.outcome,
+                    "resource_id": None if res is None else copy.deepcopy(res.resource_id)})
+    return out
+
+
+def prepare_all_reconcile_some(progs: list, which: list) -> list:
+    """every program's function is prepared (in the given order, one process, one cache); afterwards only the
+    functions `which` are reconciled, each against a cluster of its own.  Returns [(build, obs)] for those."""
+    builds = [build(p) for p in progs]
+    obs = ku.run(_prepare_all_reconcile_some(builds, which))
+    for i, o in zip(which, obs):
+        builds[i]["obs"] = o
+    return [builds[i] for i in which]
